@@ -9,7 +9,9 @@ mkdir -p $sd
 cd /repo
 if [ -n "$(git status --porcelain)" ]; then echo "repo not clean" >&2; exit 2; fi
 git apply $sd/patch.diff || { echo "$id patch does not apply" >&2; exit 2; }
+cp -p /verif/evidence/$p.json /tmp/evidence_keep_$p.json 2>/dev/null   # evidence files describe the unchanged tree
 out=$(/verif/check $p quick 2>&1); rc=$?
+mv /tmp/evidence_keep_$p.json /verif/evidence/$p.json 2>/dev/null
 { echo "exit=$rc"; echo "$out" | grep "^FAILED\|^VIOLATION\|^UNDECIDED\|^NOTE: .*dropped\|^property=" | cut -c1-300; } > $sd/check_$p.txt
 echo "$id $p exit=$rc $(echo "$out" | grep -c '^VIOLATION') violation(s)"
 git apply -R $sd/patch.diff
